@@ -231,4 +231,26 @@ func init() {
 		OutsideClaim: []string{"arbitrary names"},
 		MapOrder:     []string{"(*" + pkgCtl + ".realStatefulPodControl).createPersistentVolumeClaims", pkgCtl + ".updateStorage"},
 	})
+
+	register(&spec{
+		ID: "C16", Title: "No lost wake-ups: every relevant event gets the right set reconciled",
+		Runs: []runSpec{
+			{Name: "events", Pkg: pkgCtl, Func: "VH_Events", Quick: []int{0}, Thorough: []int{0},
+				Bounds: func(a []int) string {
+					return "one event of each kind (add, update, delete, tombstone, junk tombstone, set change, set tombstone) over every combination of owner {none, this set, stale UID, other kind, second set} x label match {none, set1, set2, both} x terminating, old and new pod for updates, resource versions equal or not; two sets in the real lister"
+				},
+				Asserts: []string{"exactly the sets the event concerns are enqueued"},
+				Covers:  []string{"event kind 0", "event kind 1", "event kind 2", "event kind 3", "event kind 4", "event kind 5", "event kind 6"}},
+			{Name: "events-invalid-selector", Pkg: pkgCtl, Func: "VH_Events", Quick: []int{1}, Thorough: []int{1},
+				Bounds:  func(a []int) string { return "as above with a third set whose selector is invalid in the same namespace" },
+				Asserts: []string{"exactly the sets the event concerns are enqueued"}},
+			{Name: "worker", Pkg: pkgCtl, Func: "VH_Worker", Quick: []int{0}, Thorough: []int{0},
+				Bounds:  func(a []int) string { return "one processNextWorkItem over sync with up to one failing API call (six error kinds) at any call position; set present, paused or gone" },
+				Asserts: []string{"a failed reconcile is put back with backoff", "a successful reconcile clears its backoff", "the key is always marked done"},
+				Covers:  []string{"reconcile with a failing API call", "reconcile without failures"}},
+		},
+		Stubs:        ctlStubs,
+		Assumptions:  []string{"the work queue is a recording fake; the set-informer closures registered in NewStatefulSetController (which only call enqueueStatefulSet) are exercised through enqueueStatefulSet directly because the constructor starts an event broadcaster"},
+		OutsideClaim: []string{"sequences of several events", "the real rate-limiting queue"},
+	})
 }
